@@ -12,6 +12,7 @@ package main
 
 import (
 	"bufio"
+	"encoding/hex"
 	"encoding/json"
 	"fmt"
 	"os"
@@ -26,6 +27,7 @@ import (
 	"syscall"
 	"time"
 
+	"github.com/gnolang/gno/tm2/pkg/amino"
 	"verif/engine/vk"
 )
 
@@ -41,6 +43,8 @@ const (
 	workerMemCap = 3 << 30 // RLIMIT_AS per worker
 )
 
+// length-3 strings: quick = menu3^3 (24^3), thorough = (menu3+menu3x)^3 (48^3)
+var menu3x = []byte{0x03, 0x04, 0x06, 0x07, 0x0e, 0x11, 0x13, 0x14, 0x16, 0x19, 0x1b, 0x20, 0x21, 0x28, 0x32, 0x3a, 0x40, 0x42, 0x4a, 0x52, 0x7e, 0x82, 0xc0, 0xfd}
 var menu3 = []byte{0x00, 0x01, 0x02, 0x08, 0x09, 0x0a, 0x0b, 0x0c, 0x0d, 0x0f, 0x10, 0x12, 0x18, 0x1a, 0x22, 0x2a, 0x7f, 0x80, 0x81, 0xfe, 0xff, 0x05, 0x15, 0x1d}
 
 func tierParams(thorough bool) (depth, k int) {
@@ -58,14 +62,18 @@ func workerMain() {
 	_ = syscall.Setrlimit(syscall.RLIMIT_AS, &lim)
 	debug.SetMemoryLimit(workerMemCap / 2)
 	debug.SetMaxStack(256 << 20)
+	debug.SetGCPercent(1000) // tiny live heap: avoid a GC cycle every few MB
 	runtime.GOMAXPROCS(2)
-	cdc := newCodec()
+	cdcs := map[bool]*amino.Codec{false: newCodec(false)}
+	if withExtras() {
+		cdcs[true] = newCodec(true)
+	}
 	regs := collectTypes()
 	var trace *os.File
 	if tp := os.Getenv("C20_TRACE"); tp != "" {
 		trace, _ = os.OpenFile(tp, os.O_CREATE|os.O_RDWR|os.O_TRUNC, 0o644)
 	}
-	gens := map[bool]*gen{}
+	gens := map[[2]bool]*gen{}
 	in := bufio.NewScanner(os.Stdin)
 	in.Buffer(make([]byte, 1<<20), 1<<20)
 	out := bufio.NewWriter(os.Stdout)
@@ -75,12 +83,17 @@ func workerMain() {
 			fmt.Fprintln(os.Stderr, "bad task:", err)
 			os.Exit(3)
 		}
-		g := gens[t.Thorough]
-		if g == nil {
-			g = newGen(cdc, regs, t.Thorough)
-			gens[t.Thorough] = g
+		if t.Type < 0 || t.Type >= len(regs) {
+			fmt.Fprintln(os.Stderr, "bad type index")
+			os.Exit(3)
 		}
-		res := runTask(cdc, g, regs, t, trace)
+		gk := [2]bool{regs[t.Type].extra, t.Thorough}
+		g := gens[gk]
+		if g == nil {
+			g = newGen(cdcs[gk[0]], regs, gk[0], t.Thorough)
+			gens[gk] = g
+		}
+		res := runTask(g, regs, t, trace)
 		b, _ := json.Marshal(res)
 		out.Write(b)
 		out.WriteByte('\n')
@@ -88,7 +101,7 @@ func workerMain() {
 	}
 }
 
-func runTask(cdc interface{}, g *gen, regs []regType, t task, trace *os.File) *result {
+func runTask(g *gen, regs []regType, t task, trace *os.File) *result {
 	res := &result{Op: t.Op, Type: t.Type, Outcomes: map[string]int64{}}
 	reg := regs[t.Type]
 	c := &checker{cdc: g.cdc, g: g, reg: reg, res: res, vmap: map[string]*viol{}, trace: trace}
@@ -158,9 +171,13 @@ func runTask(cdc interface{}, g *gen, regs []regType, t task, trace *os.File) *r
 				res.Strings++
 			}
 		}
-		for _, a := range menu3 {
-			for _, b := range menu3 {
-				for _, d := range menu3 {
+		m3 := menu3
+		if t.Thorough {
+			m3 = append(append([]byte{}, menu3...), menu3x...)
+		}
+		for _, a := range m3 {
+			for _, b := range m3 {
+				for _, d := range m3 {
 					buf[0], buf[1], buf[2] = a, b, d
 					c.checkBytes(buf[:3])
 					res.Strings++
@@ -252,6 +269,10 @@ var r *vk.Run
 func main() {
 	if os.Getenv("C20_WORKER") != "" {
 		workerMain()
+		return
+	}
+	if d := os.Getenv("C20_DEBUG"); d != "" { // C20_DEBUG=pkg.Type:hexbytes — print what each decoder does
+		debugMain(d)
 		return
 	}
 	r = vk.New("exploration")
@@ -359,7 +380,7 @@ func main() {
 			jobs = append(jobs, j)
 		}
 		bj := &job{t: task{Op: "bytes", Type: i, NP: 1, Thorough: thorough}}
-		weights[bj] = 400_000
+		weights[bj] = target // interleaved with the value tasks so that a capped run has covered both kinds
 		jobs = append(jobs, bj)
 	}
 	sort.SliceStable(jobs, func(a, b int) bool { return weights[jobs[a]] > weights[jobs[b]] })
@@ -376,8 +397,13 @@ func main() {
 		}
 		return x.P < y.P
 	})
-	type vkey struct{ class, typ string }
-	best := map[vkey]viol{}
+	type vkey struct{ class, sig string }
+	type vagg struct {
+		min   viol
+		types map[string]bool
+	}
+	best := map[vkey]*vagg{}
+	notes := map[string][]string{}
 	var totalValues, totalDistinct, totalStrings, totalDecodes int64
 	typesDone := map[int]bool{}
 	native, done, skipped := 0, 0, 0
@@ -413,11 +439,22 @@ func main() {
 		for _, s := range res.Samples {
 			r.Sample(s)
 		}
+		for k, v := range res.Notes {
+			if len(notes[k]) < 12 {
+				notes[k] = append(notes[k], v...)
+			}
+		}
 		structDifs = append(structDifs, res.StructDif...)
 		for _, v := range res.Viols {
-			key := vkey{v.Class, v.Type}
-			if b, ok := best[key]; !ok || v.Len < b.Len || (v.Len == b.Len && v.Input < b.Input) {
-				best[key] = v
+			key := vkey{v.Class, v.Sig}
+			a := best[key]
+			if a == nil {
+				a = &vagg{min: v, types: map[string]bool{}}
+				best[key] = a
+			}
+			a.types[v.Type] = true
+			if b := a.min; v.Len < b.Len || (v.Len == b.Len && (v.Input < b.Input || (v.Input == b.Input && v.Type < b.Type))) {
+				a.min = v
 			}
 		}
 		if !typesDone[j.t.Type] {
@@ -436,19 +473,37 @@ func main() {
 		if vkeys[a].class != vkeys[b].class {
 			return vkeys[a].class < vkeys[b].class
 		}
-		return vkeys[a].typ < vkeys[b].typ
+		return vkeys[a].sig < vkeys[b].sig
 	})
 	{
-		var all []viol
+		var all []map[string]any
 		for _, k := range vkeys {
-			all = append(all, best[k])
+			a := best[k]
+			var ts []string
+			for t := range a.types {
+				ts = append(ts, t)
+			}
+			sort.Strings(ts)
+			all = append(all, map[string]any{"class": k.class, "sig": k.sig, "min": a.min, "types": ts})
 		}
-		b, _ := json.MarshalIndent(all, "", " ")
+		b, _ := json.MarshalIndent(map[string]any{"violations": all, "notes": notes}, "", " ")
 		os.WriteFile(filepath.Join(scratch, "violations-"+r.Tier+".json"), b, 0o644)
 	}
 	for _, k := range vkeys {
-		v := best[k]
-		r.Violation(fmt.Sprintf("%s|%s|%s", v.Class, v.Type, v.Input), v)
+		a := best[k]
+		var ts []string
+		for t := range a.types {
+			ts = append(ts, t)
+		}
+		sort.Strings(ts)
+		if len(ts) > 40 {
+			ts = append(ts[:40], "…")
+		}
+		// one key per defect signature: class | normalised cause.  The minimal instance (smallest input, then type
+		// name) is in the detail, not in the key, so that a budget-capped run (which may see a different minimal
+		// instance) still produces the same key.
+		r.Violation(fmt.Sprintf("%s|%s", k.class, k.sig),
+			map[string]any{"minimal": a.min, "n_affected_types": len(a.types), "affected_types": ts, "replay": "C20_DEBUG=" + a.min.Type + ":<hex> /verif/.work/bin/c20"})
 	}
 	if len(structDifs) > 8 {
 		structDifs = structDifs[:8]
@@ -460,11 +515,53 @@ func main() {
 		"value space is the bounded menu described in rule, not all values; byte strings beyond length 3 only as single-byte mutations/truncations of valid encodings",
 		"types without native genproto2 methods get the reflect-only round-trip, JSON and no-panic checks",
 	}
-	r.Finish(fmt.Sprintf("per registered type: all values with <=%d deviating fields (menu depth %d) x {encoder parity, size, 2 decoders round-trip, JSON round-trip}; all byte strings of length<=2 (65793), 24^3 length-3 strings, every truncation and 5 single-byte substitutions per position of every distinct valid encoding x {accept/reject parity, value parity, no panic, re-encode stability}; distinct = distinct (type, canonical encoding) pairs", depth, k),
+	r.Finish(fmt.Sprintf("per registered type: all values with <=%d deviating fields (menu depth %d) x {encoder parity, size, 2 decoders round-trip, JSON round-trip}; all byte strings of length<=2 (65793), %d^3 length-3 strings, every truncation, 5 single-byte substitutions per position, every rotation and the self-concatenation of every distinct valid encoding x {accept/reject parity, value parity, no panic, re-encode stability}; distinct = distinct (type, canonical encoding) pairs", k, depth, map[bool]int{false: len(menu3), true: len(menu3) + len(menu3x)}[thorough]),
 		exhaustive, map[string]any{
 			"types": len(typesDone), "types_native_genproto2": native, "types_per_package": perPkg,
 			"values_checked": totalValues, "distinct_valid_encodings": totalDistinct, "byte_strings_checked": totalStrings,
 			"decoder_calls": totalDecodes, "tasks": done, "tasks_skipped_budget": skipped, "workers": nw, "worker_mem_cap_bytes": workerMemCap,
 			"structural_differences_between_decoders_sample": structDifs,
 		})
+}
+
+func debugMain(spec string) {
+	i := strings.LastIndex(spec, ":")
+	name, hexs := spec[:i], spec[i+1:]
+	bs, err := hex.DecodeString(hexs)
+	if err != nil {
+		fmt.Println("bad hex:", err)
+		return
+	}
+	regs := collectTypes()
+	for _, reg := range regs {
+		if reg.name != name {
+			continue
+		}
+		cdc := newCodec(reg.extra)
+		res := &result{Outcomes: map[string]int64{}}
+		c := &checker{cdc: cdc, reg: reg, res: res, vmap: map[string]*viol{}}
+		dR, rR := c.decR(bs)
+		fmt.Printf("reflect:   %s\n   value=%+v\n", rR.why(), dR.Elem().Interface())
+		if !rR.failed() {
+			e := c.encR(dR)
+			fmt.Printf("   reencoded(reflect)=%x %s\n", e.bz, e.why())
+		}
+		if reg.native {
+			dG, rG := c.decG(bs)
+			fmt.Printf("genproto2: %s\n   value=%+v\n", rG.why(), dG.Elem().Interface())
+			if !rG.failed() {
+				e := c.encR(dG)
+				fmt.Printf("   reencoded(reflect)=%x %s\n", e.bz, e.why())
+				e = c.encG(dG)
+				fmt.Printf("   reencoded(genproto2)=%x %s\n", e.bz, e.why())
+			}
+		}
+		c.checkBytes(bs)
+		c.finish()
+		for _, v := range res.Viols {
+			fmt.Printf("VIOLATION %s: %s\n", v.Class, v.Detail)
+		}
+		return
+	}
+	fmt.Println("type not found:", name)
 }
